@@ -24,13 +24,13 @@ CHECKS = {
    text="Simulated distributed runs record (shard,key) right after every redistributing operator; co-location is an invariant of each run, and the key->shard table must agree across groups of 8 runs (separate OS processes) that differ in operator, producer count/kind, vector size, executor, cluster shape and seeds; thorough tier covers the full 8- and 16-bit key ranges. The quantification over key values is input enumeration carried by the simulator (said so in DESIGN).",
    design="§6 C05", technique="deterministic simulation, cross-process placement-table agreement, invariant monitor", note=WHOLE),
  "C08": dict(level="exploration", engine="world",
-   text="In every simulated cluster run the task graph compiled by each worker (read from the live worker through a tagged accessor) is compared with the driver's, with a recompilation and with a compilation after a gob round trip of the invocation; a well-formedness oracle stated from the property is evaluated on the driver graph; graph digests are compared across groups of 4 separately started processes with different seeded map/select orders.",
+   text="In every simulated cluster run the task graph compiled by each worker (read from the live worker through a tagged accessor) is compared with the driver's, with a recompilation and with a compilation after a gob round trip of the invocation; a well-formedness oracle stated from the property is evaluated on the driver graph; graph digests are compared across groups of 4 separately started processes with different seeded map/select orders. Programs include fan-out shapes (one source, Materialize source or reused Result consumed directly and by shuffles of different widths, combiners and partitioners at once); a dependency must be wired as a shuffle exactly when the slice graph says so.",
    design="§6 C08", technique="deterministic simulation with seeded runtime randomness, invariant monitor on live driver/worker state, cross-process digest agreement", note=WHOLE),
  "C12": dict(level="exploration", engine="world",
    text="Seeded client histories (run, scan, scan||scan, run over 1-2 earlier Results through pipelined or redistributing operators, discard, discard||run, kill machine) on both executors in one simulated session; every Result is modelled by the reference rows of its program over its arguments' model rows; every successful scan must equal the model, Funcs run after discards/kills must succeed, nothing may hang. Network delays on Worker.Discard/Run decide the discard/run interleavings.",
    design="§6 C12", technique="deterministic simulation, seeded operation histories against a reference model", note=WHOLE),
  "C19": dict(level="exploration", engine="world",
-   text="2-5 concurrent client goroutines in one simulated session share base results (runs through pipelined and redistributing operators, scans, optional discard); seeded virtual delays at RPC seams, in user functions and at the simhook yield points order the elections and wake-ups; each successful scan equals the reference of its program as if alone; a yield-hook monitor checks that no task has two Executor.Run calls in flight; thorough tier re-runs every third case under the race detector (race reports with /repo frames are violations).",
+   text="2-5 concurrent client goroutines in one simulated session share base results (runs through pipelined and redistributing operators, scans, optional discard); seeded virtual delays at RPC seams, in user functions and at the simhook yield points order the elections and wake-ups; each successful scan equals the reference of its program as if alone; a yield-hook monitor checks that no task has two Executor.Run calls in flight; thorough tier re-runs every third case under the race detector (race reports with /repo frames are violations). Also: one client cancels its run part-way (after a simulated duration or after the n-th simulator event) over a freshly discarded shared result, and overlapping results are discarded twice; the other clients must be served as if alone; a goroutine blocked for good on a mutex inside bigslice (real-time stall, goroutine dump analysed, case re-run) is reported as deadlock.",
    design="§6 C19", technique="deterministic simulation with seeded yield/delay schedules, reference-model oracle, in-flight monitor, race detector in thorough tier", note=WHOLE),
  "C13": dict(level="fault_enumeration", engine="world",
    text="Two-process cache histories on a simulated file system (base/file scheme simfs://, commit-on-close semantics): process 1 runs a program with a Cache/CachePartial operator clean, or with an error / short write / sticky error at the k-th create, write, close or stat of the cache files, or with a crash-stop at the k-th file operation (the process exits; only published files survive in a snapshot), or with a machine kill or a reader error; process 2 starts from the surviving files (optionally minus a subset) and runs the same program. Oracles: rows equal the reference, every published shard file decodes with the real decoder to exactly its shard's reference rows at the start and end of every process, process 2 succeeds, cached shards are not recomputed (user-function call counts). Fault positions are seeded, not exhaustively swept, in the quick tier.",
@@ -45,19 +45,19 @@ CHECKS = {
    text="sortio.SortReader / NewMergeReader / Reduce over simulated upstream readers (chunking, empty reads, rows-with-EOF, injected read error at the k-th read) with spill targets from 1 byte and per-process vector/canary/spill-batch sizes from 1 up; oracles: sorted multiset / sorted union / one folded row per key; injected errors are reported, never replaced by EOF; no spill directory survives the constructor.",
    design="§6 C10", technique="deterministic simulation of upstream readers and consumer with fault injection (read errors), randomised size knobs, durable-state (spill dir) inspection", note=COMP),
  "C17": dict(level="exploration", engine="comp",
-   text="Every library and operator reader is driven by a simulated upstream (scripted chunking incl. empty non-EOF reads and rows-with-EOF, injected read errors) and a simulated consumer (seeded destination sizes, poisoned destination frames taken as views at an offset); oracles: count bounds, nothing written outside the returned rows or the view, same row sequence for every chunking pair, earlier frames unchanged, sticky EOF, errors propagated; scanner arity/type rejection.",
+   text="Every library and operator reader is driven by a simulated upstream (scripted chunking incl. empty non-EOF reads and rows-with-EOF, injected read errors) and a simulated consumer (seeded destination sizes, poisoned destination frames taken as views at an offset); oracles: count bounds, nothing written outside the returned rows or the view, same row sequence for every chunking pair, earlier frames unchanged, sticky EOF, errors propagated; scanner arity/type rejection. The stream encoder/decoder pair is one of the readers (batches of growing and shrinking sizes).",
    design="§6 C17", technique="deterministic simulation of upstream/consumer around each reader, seeded chunkings, poison-frame oracle", note=COMP),
  "C09": dict(level="exploration", engine="comp",
-   text="The combining frame is fed EVERY key sequence up to a length bound over a 4-key alphabet into tables of initial size 1..8 (all probe sequences, resizes and compaction orders of a size-8 table) plus seeded streams; the spilling combiner is fed by 1-4 simulated producer tasks in a seeded interleaving with spill thresholds from 1 key upward and per-process vector sizes, read back through Reader or WriteTo+decoder or discarded; oracle: one row per key, ascending order, value == fold, no spill directory left. No fault dimension (the spiller has no seam); said so in DESIGN.",
+   text="The combining frame is fed EVERY key sequence up to a length bound over a 4-key alphabet into tables of initial size 1..8 (all probe sequences, resizes and compaction orders of a size-8 table) plus seeded streams; the spilling combiner is fed by 1-4 simulated producer tasks in a seeded interleaving with spill thresholds from 1 key upward and per-process vector sizes, read back through Reader or WriteTo+decoder or discarded; oracle: one row per key, ascending order, value == fold, no spill directory left. No fault dimension (the spiller has no seam); said so in DESIGN. A read-back fault (a spill file that cannot be opened) must be reported and must not leave spill directories behind. A reproducible crash or hang of the code under test is a violation.",
    design="§6 C09", technique="component simulation: seeded producer interleavings and size knobs, bounded-exhaustive key sequences, durable-state inspection", note=COMP),
  "C14": dict(level="exploration", engine="comp",
-   text="Two layers. The real machineManager.Do runs over the simulated bigmachine system under a fake clock and is driven by seeded offer/cancel/done(ok|remote|transport)/kill/time-advance histories; capacity, probation, dead-machine, ordering (single-machine steps only), conservation and machine-count oracles use grants and returns only. In addition a whole-system monitor observes the driver's assignment intervals (offered/returned yield points) in simulated cluster runs with Procs/Exclusive pragmas, exclusive Funcs and faults on every step of a task run, and the local executor's concurrency inside user functions.",
+   text="Two layers. The real machineManager.Do runs over the simulated bigmachine system under a fake clock and is driven by seeded offer/cancel/done(ok|remote|transport)/kill/time-advance histories; capacity, probation, dead-machine, ordering (single-machine steps only), conservation and machine-count oracles use grants and returns only. In addition a whole-system monitor observes the driver's assignment intervals (offered/returned yield points) in simulated cluster runs with Procs/Exclusive pragmas, exclusive Funcs and faults on every step of a task run, and the local executor's concurrency inside user functions. Scenarios with several machines on probation at once, one of them dying; a reproducible crash of the manager goroutine is a violation.",
    design="§6 C14", technique="deterministic simulation of the live manager with fault injection (machine kills, transport errors, clock), invariant monitor on whole-system runs", note=COMP + "; " + WHOLE),
  "C15": dict(level="fault_enumeration", engine="comp",
-   text="File and memory task stores over the simulated disk: sequential histories checked against a map model, each re-run with an error at EVERY file operation of its fault-free run and a short write at every write; concurrent clients stepped one file operation at a time by a seeded scheduler and checked with porcupine against a nondeterministic register model; the retrying remote reader over a scripted opener with a fake clock, exhaustive over failure positions for short streams with <= 3 failures.",
+   text="File and memory task stores over the simulated disk: sequential histories checked against a map model, each re-run with an error at EVERY file operation of its fault-free run and a short write at every write; concurrent clients stepped one file operation at a time by a seeded scheduler and checked with porcupine against a nondeterministic register model; the retrying remote reader over a scripted opener with a fake clock, exhaustive over failure positions for short streams with <= 3 failures. Keys name (task, partition) entries, so tasks with several partitions are written, read and discarded in any order.",
    design="§6 C15", technique="disk fault enumeration on a simulated file system, cooperative scheduling + porcupine linearizability, exhaustive failure scripts for the retry reader", note=COMP),
  "C16": dict(level="exploration", engine="world",
-   text="Funcs whose rows render their arguments as seen by the invoking process are run on the simulated cluster (and locally) with seeded argument lists over scalars, slices, maps, structs, pointers, interface parameters, nil values, Results and nested Results; rows must render the driver's arguments, worker graphs must equal the driver's; unencodable arguments must give an error with no repeated Worker.Run/Compile; registry skew is injected as a transport fault on the FuncLocations reply and must be refused iff the lists differ; the FuncLocationsDiff law is checked exhaustively for lists up to length 5 (pure side-oracle).",
+   text="Funcs whose rows render their arguments as seen by the invoking process are run on the simulated cluster (and locally) with seeded argument lists over scalars, slices, maps, structs, pointers, interface parameters, nil values, Results and nested Results; rows must render the driver's arguments, worker graphs must equal the driver's; unencodable arguments must give an error with no repeated Worker.Run/Compile; registry skew is injected as a transport fault on the FuncLocations reply and must be refused iff the lists differ; the FuncLocationsDiff law is checked exhaustively for lists up to length 5 (pure side-oracle). Also: Results reachable directly and through other Result arguments with the last invocation landing on machines that ran nothing before; an invocation that is never run itself (its Func returns its Result argument) carrying an unencodable argument must fail at once when its Result is used, and no task may be submitted to the executor twice in a run without injected faults.",
    design="§6 C16", technique="deterministic simulation: argument transport over the simulated network, registry skew as a transport fault, seam-log oracle for retries", note=WHOLE),
  "C20": dict(level="exploration", engine="comp",
    text="Scope operations (Incr/Value/Merge) from 2-4 logical threads are stepped one yield point at a time (before each load/CAS that creates scope storage or instances) by a seeded scheduler and checked with porcupine per (scope, counter); merge/reset/gob laws on seeded scopes; the end-to-end total is checked by a whole-system batch on both executors (counters of a Result, also over a reused Result, == the reference's per-row call counts).",
